@@ -1747,7 +1747,11 @@ class Segment(Element):
         return valid
 
     def _get_children(self, trailing=False):
-        children = self.children.get_ordered_children()
+        # place every known field at the position given by its number: the structures of some
+        # versions skip withdrawn fields (e.g. DG1 in version 2.6 goes from DG1_6 to DG1_15)
+        children = [None] * self._last_allowed_child_index
+        for name, child in zip(self.ordered_children, self.children.get_ordered_children()):
+            children[int(name[4:]) - 1] = child
         if self.allow_infinite_children:
             for i in xrange(self._last_allowed_child_index + 1, self._last_child_index + 1):
                 children.append(self.children.indexes.get('{}_{}'.format(self.name, i), None))
